@@ -387,9 +387,9 @@ def rule_minsum(repo: Repo, rep: Report) -> int:
             else:
                 rep.violation("MINSUM", fi, f"{unparse(c)[:70]}", f"reduces axis {int(dv)}; the check update combines the messages of the OTHER edges of one check node, which lie along the extrinsic axis 2", node=c)
     sp = assigns(fi, "sign_product")
-    form(rep, "MINSUM", fi, sp[0].value if len(sp) == 1 else None, [f"torch.prod(torch.sign({G}), dim=2)", f"torch.sign({G}).prod(dim=2)", f"torch.prod(torch.sign({G}), 2)"], "sign = product of the extrinsic signs over the gather axis", "the reduction must run over the extrinsic axis (2) and yield one value per edge", num=([{G: [-3.0, 2.0, -0.5]}, {G: [1.5, 0.25]}, {G: [-0.1, -4.0, 2.0, -7.0]}], lambda p: math.prod((x > 0) - (x < 0) for x in p[G])))
+    form(rep, "MINSUM", fi, sp[0].value if len(sp) == 1 else None, [f"torch.prod(torch.sign({G}), dim=2)", f"torch.sign({G}).prod(dim=2)", f"torch.prod(torch.sign({G}), 2)", f"{G}.sign().prod(dim=2)"], "sign = product of the extrinsic signs over the gather axis", "the reduction must run over the extrinsic axis (2) and yield one value per edge", num=([{G: [-3.0, 2.0, -0.5]}, {G: [1.5, 0.25]}, {G: [-0.1, -4.0, 2.0, -7.0]}], lambda p: math.prod((x > 0) - (x < 0) for x in p[G])))
     mm = assigns(fi, "min_magnitudes")
-    form(rep, "MINSUM", fi, mm[0].value if len(mm) == 1 else None, [f"torch.min(torch.abs({G}), dim=2)", f"torch.abs({G}).min(dim=2)", f"torch.min({G}.abs(), dim=2)", f"torch.min(torch.abs({G}), 2)"], "magnitude = minimum extrinsic magnitude over the gather axis", "min-sum takes the MINIMUM of the ABSOLUTE values over the extrinsic axis (2)", num=([{G: [-3.0, 2.0, -0.5]}, {G: [1.5, 0.25]}, {G: [-0.1, -4.0, 2.0, -7.0]}], lambda p: min(abs(x) for x in p[G]), (), lambda v: v[0] if isinstance(v, list) else v))
+    form(rep, "MINSUM", fi, mm[0].value if len(mm) == 1 else None, [f"torch.min(torch.abs({G}), dim=2)", f"torch.abs({G}).min(dim=2)", f"torch.min({G}.abs(), dim=2)", f"torch.min(torch.abs({G}), 2)", f"torch.min(torch.abs({G}), dim=2).values", f"torch.abs({G}).min(dim=2).values", f"{G}.abs().min(dim=2).values", f"{G}.abs().min(dim=2)"], "magnitude = minimum extrinsic magnitude over the gather axis", "min-sum takes the MINIMUM of the ABSOLUTE values over the extrinsic axis (2)", num=([{G: [-3.0, 2.0, -0.5]}, {G: [1.5, 0.25]}, {G: [-0.1, -4.0, 2.0, -7.0]}], lambda p: min(abs(x) for x in p[G]), (), lambda v: v[0] if isinstance(v, list) else v))
     if len(mm) == 1 and isinstance(mm[0].value, ast.Call) and (call_name(mm[0].value) or "").endswith("min"):
         t = mm[0].targets[0]
         rep.check(isinstance(t, ast.Tuple) and len(t.elts) == 2 and isinstance(t.elts[0], ast.Name) and t.elts[0].id == "min_magnitudes", "MINSUM", fi, f"{unparse(t)} = torch.min(..., dim=2)", "values (not indices) of the reduction are used", "torch.min(dim=) returns (values, indices): the magnitudes must be the first element", node=mm[0])
